@@ -122,3 +122,71 @@ def dtype_harness(name, dtype):
 
 def dtype_harnesses(tier):
     return [dtype_harness(n, dt) for n in CONFIGS for dt in (torch.float64, torch.float32)]
+
+
+# ------------------------------------------------------------------------------------------------------------------
+# C12 / C13 for flows and distributions (evaluation mode): rows independent, no writes to arguments / parameters / buffers
+# ------------------------------------------------------------------------------------------------------------------
+ROW_CONFIGS = {
+    "MaskedAutoregressiveFlow": (lambda: MaskedAutoregressiveFlow(2, 2, num_layers=2, num_blocks_per_layer=1, batch_norm_between_layers=True, batch_norm_within_layers=True), False),
+    "SimpleRealNVP": (lambda: SimpleRealNVP(2, 2, num_layers=2, num_blocks_per_layer=1, batch_norm_between_layers=True, batch_norm_within_layers=True), False),
+    "ConditionalFlow": (lambda: Flow(TR.MaskedAffineAutoregressiveTransform(2, 2, context_features=4, num_blocks=1), DN.ConditionalDiagonalNormal([2]),
+                                     embedding_net=torch.nn.Linear(2, 4)), True),
+    "StandardNormal": (lambda: DN.StandardNormal([2]), False),
+    "ConditionalDiagonalNormal": (lambda: DN.ConditionalDiagonalNormal([2]), True),
+}
+
+
+def rows_harness(name):
+    from tsv.terms import base_symbols
+    make, with_ctx = ROW_CONFIGS[name]
+    B = 2
+
+    def run(h, ctx):
+        m = make(); m.eval()
+        symbolise(h, m)
+        for mm in m.modules():
+            for k, b_ in list(mm._buffers.items()):
+                if b_ is not None and isinstance(b_, torch.Tensor) and b_.dtype.is_floating_point and k in ("running_mean", "running_var"):
+                    s_ = h.inp(f"buf:{k}:{id(mm) % 997}", tuple(b_.shape), b_.dtype, owner="buffer")
+                    mm._buffers[k] = s_
+                    if k == "running_var":
+                        for t in P(s_).reshape(-1): ctx.assume(t >= 0)
+        x = h.inp("x", (B, 2)); c = h.inp("context", (B, 2 if name == "ConditionalFlow" else 4)) if with_ctx else None
+        out = {"log_prob": m.log_prob(x, context=c)}
+        if isinstance(m, Flow):
+            out["transform_to_noise"] = m.transform_to_noise(x, context=c)
+        return out
+
+    def post(h, ctx, outs):
+        ids = {}
+        for n in ("x", "context"):
+            if n in h.inputs:
+                p = P(h.inputs[n])
+                for idx in np.ndindex(*p.shape): ids[p[idx].get_id()] = idx[0]
+        for meth, v in outs.items():
+            pv = P(v)
+            bad = [(b, ids[s]) for b in range(pv.shape[0]) for t in np.asarray(pv[b], dtype=object).reshape(-1) for s in base_symbols(t) if s in ids and ids[s] != b]
+            ensure(h, ctx, f"C12.row-independent.{meth}", z3.BoolVal(pv.shape[0] == B and not bad), meta={"bad": str(bad[:3])})
+        ensure(h, ctx, "C13.no-write", z3.BoolVal(not [w for w in ctx.writes if w[0] != "fresh"]), meta={"writes": str([w for w in ctx.writes if w[0] != "fresh"][:3])})
+
+    def native_call(h, inp):
+        torch.manual_seed(1); m = make().double().eval()
+        x = torch.tensor(np.asarray(inp["x"])); c = torch.tensor(np.asarray(inp["context"])) if with_ctx else None
+        return m, x, c, m.log_prob(x, context=c)
+
+    def native_clauses(h, inp, r):
+        m, x, c, lp = r
+        rows = torch.cat([m.log_prob(x[i:i + 1], context=c[i:i + 1] if c is not None else None) for i in range(B)])
+        sd = {k: v.clone() for k, v in m.state_dict().items()}; xb = x.clone()
+        m.log_prob(x, context=c)
+        return {"C12.row-independent.log_prob": bool(torch.allclose(rows, lp, atol=1e-9)),
+                "C13.no-write": bool(torch.equal(xb, x)) and all(torch.equal(sd[k], v) for k, v in m.state_dict().items())}
+    hn = Harness(f"rows_{name}[]", run, post, native_call=native_call, native_clauses=native_clauses,
+                 sample=lambda h, rng: {"x": rng.normal(size=(B, 2)), "context": rng.normal(size=(B, 2 if name == "ConditionalFlow" else 4))}, functions=[Flow._log_prob, Flow.transform_to_noise])
+    hn.native_float32 = False
+    return hn
+
+
+def rows_harnesses(tier):
+    return [rows_harness(n) for n in ROW_CONFIGS]
